@@ -8,10 +8,10 @@ NOTE_COMMON = ("Trusted: go/ssa construction, the gosx interpreter and its std-l
                "Holds only within the per-entry bounds recorded in the evidence; map iteration order fixed to insertion order.")
 
 CLAIMS = {
- "C10": dict(text="Memory store: offset order proved by one inductive step from an arbitrary base position (digit-witness encoding of %020d), read chains / streaming / save-load checked for every log length, limit and resume point within the bound. Bounded model checking, not a proof.",
-             ref="§3 C10", note=NOTE_COMMON + " SQLite driver, HTTP and byte-level JSON are outside the claim."),
- "C11": dict(text="bus.Replay over the paged and the streaming path: every log length, start offset, batch size and single-fault position within the bound is a symbolic variable; the oracle (gap-free prefix, nil iff complete, cause wrapped, no append, no handler) is discharged by the solver on every path.",
-             ref="§3 C11", note=NOTE_COMMON),
+ "C10": dict(text="Memory store and SQLite store (real stores/sqlite code over a database/sql model that parses the comparison, LIMIT and upsert guard out of the SQL text): offset order as one inductive step from an arbitrary base position (digit-witness encoding of the decimal rendering), read chains / streaming (batched and not) / save-load / isolation for every log length, limit and resume point within the bound. Bounded model checking, not a proof.",
+             ref="§3 C10", note=NOTE_COMMON + " SQLite itself (pager, SQL engine, driver value conversion incl. timestamps with zones), the durable-streams store (HTTP) and byte-level JSON are outside the claim; the SQLite lexicographic-order defect is a recorded known finding."),
+ "C11": dict(text="bus.Replay over the paged path, the memory streaming path and the SQLite streaming paths (single cursor and batched, over the database/sql model): every log length, start offset, batch size and single-fault position (callback error, cancellation, store/driver failure at a chosen query / row fetch / scan / close) within the bound is a symbolic variable; the oracle (gap-free prefix, nil iff complete, cause wrapped, no append, no handler) is discharged by the solver on every path; SQLite counterexamples are replayed against the real driver behind a fault-injecting database/sql/driver wrapper.",
+             ref="§3 C11", note=NOTE_COMMON + " durable-streams store outside the claim; batched-stream cancellation is a recorded known finding."),
  "C09": dict(text="Persistent bus configuration: every subset of the other bus options with WithStore at every position, K publishes of value / pointer / custom-named events with symbolic fields; record visible to the handler of the same publish, one record per publish, type = EventType, decode = published value, offsets increasing - all discharged by the solver per path.",
              ref="§3 C09", note=NOTE_COMMON + " encoding/json is a tree model built from the real struct tags (byte-level encoding trusted)."),
  "C13": dict(text="Every pattern of ok / unencodable / rejected / deadline-expired outcomes over K publishes, with and without error handler and timeout: delivery unaffected, exactly one append attempt, one report per failure wrapping the cause, log = successes only, fresh replay subscriber sees exactly the successes.",
@@ -31,7 +31,7 @@ CLAIMS = {
  "C17": dict(text="Every acyclic upcaster graph over 4 names within the edge bound (several upcasters per source), a failure at any single step: callback sees the whole chain's composition or the original event, error handler once with the failing step; typed upcaster = JSON of f(decoded).",
              ref="§3 C17", note=NOTE_COMMON),
  "C12": dict(text="Every history of publishes (two event types), SubscribeWithReplay for two ids, and restarts within the length bound over the real memory stores; one fault per history (failure of any single store operation, or a crash right after any store operation, by a dead-process wrapper); oracle: no persisted event lost, log order within a run, redelivery only of positions never saved, saved offset monotone, exactly once without faults.",
-             ref="§3 C12, Appendix C", note=NOTE_COMMON + " Sequential histories only at this point: a publisher interleaved with a running SubscribeWithReplay is claimed only once the concurrent entry is registered (see evidence entries); SQLite/durable-streams stores are outside this claim."),
+             ref="§3 C12, Appendix C", note=NOTE_COMMON + " Sequential histories; the SQLite store is covered for fault-free histories through the database/sql model; a publisher interleaved with a running SubscribeWithReplay and the durable-streams store are outside this claim (see DESIGN)."),
  "C18": dict(text="Materializer driven through the real helpers, bus, memory store and Replay: every sequence of M insert/update/delete/reset/snapshot/unregistered messages over two entity types with SMT-string keys, strict or not, split into two sessions at any point; state compared with a last-writer-wins fold through a universally quantified probe key.",
              ref="§3 C18, Appendix C", note=NOTE_COMMON),
  "C19": dict(text="Round trip at JSON-tree level for every helper x option subset x arbitrary strings/nested entity, protocol field names read back from the stored tree; Apply on an arbitrary document (invalid, or an arbitrary tree refined lazily by the decoder's own case distinctions): never panics, error leaves collections and LastOffset unchanged.",
